@@ -114,6 +114,12 @@ impl Link {
         self.ops.last()
     }
 
+    /// True if a line or a local label sits at the address behind the last opcode.
+    pub fn has_symbol_at_end(&self) -> bool {
+        let end = self.ops.len();
+        self.symbols.values().any(|(addr, _)| *addr == end)
+    }
+
     pub fn drain<R>(&mut self, range: R) -> std::vec::Drain<'_, Opcode>
     where
         R: std::ops::RangeBounds<usize>,
